@@ -105,9 +105,16 @@ func record(f *family, c *ctx) error {
 	} else {
 		f.gen(c, func(e ev) { cases = append(cases, roundTrip(e)) })
 	}
+	pi, pn := 0, 1
+	if c.part != "" {
+		fmt.Sscanf(c.part, "%d/%d", &pi, &pn)
+		if pn < 1 || pi < 0 || pi >= pn {
+			return fmt.Errorf("bad -part %q", c.part)
+		}
+	}
 	results := make([][]ev, len(cases))
 	workers := runtime.NumCPU()
-	if f.serial {
+	if f.serial || c.arg == "measure" {
 		workers = 1
 	}
 	var wg sync.WaitGroup
@@ -121,6 +128,9 @@ func record(f *family, c *ctx) error {
 				if k >= len(cases) {
 					return
 				}
+				if k%pn != pi {
+					continue
+				}
 				results[k] = f.exec(c, cases[k])
 			}
 		}()
@@ -132,10 +142,32 @@ func record(f *family, c *ctx) error {
 	}
 	for k, evs := range results {
 		for _, e := range evs {
+			e["cid"] = k
 			w.emitTo(k, e)
 		}
 	}
-	return w.close()
+	if err := w.close(); err != nil {
+		return err
+	}
+	// the cases, so that a rejected event can be traced back to its inputs and
+	// re-executed
+	if pi != 0 {
+		return nil
+	}
+	cf, err := os.Create(c.out + ".cases")
+	if err != nil {
+		return err
+	}
+	bw := bufio.NewWriterSize(cf, 1<<20)
+	for _, cs := range cases {
+		b, _ := json.Marshal(cs)
+		bw.Write(b)
+		bw.WriteByte('\n')
+	}
+	if err := bw.Flush(); err != nil {
+		return err
+	}
+	return cf.Close()
 }
 
 // roundTrip passes a generated case through JSON so that exec sees exactly
